@@ -52,6 +52,11 @@ def main():
             mod.run(res, replay=args.replay)
         except common.BuildError as e:
             res.violation("build:" + str(e)[:60], "cannot build: %s\n%s" % (e, e.out[-1500:]), {"build": str(e)}, no_input=True)
+        except Exception as e:      # malformed implementation output the check did not anticipate: report, do not crash
+            import traceback
+            tb = traceback.format_exc()
+            res.violation("check-error:" + type(e).__name__, "the check could not interpret the implementation's output (or has a defect): " + tb[-1200:],
+                          {"traceback": tb[-3000:]}, no_input=True)
         sys.exit(common.finish(res))
     ap.print_help()
     sys.exit(2)
